@@ -14,7 +14,8 @@ import time
 import traceback
 
 VERIF = os.path.dirname(os.path.dirname(os.path.abspath(__file__)))
-EVIDENCE_DIR = os.path.join(VERIF, 'evidence')
+# VERIF_EVIDENCE_DIR redirects evidence/replays (used by ./selftest so that mutant runs never touch /verif/evidence)
+EVIDENCE_DIR = os.environ.get('VERIF_EVIDENCE_DIR') or os.path.join(VERIF, 'evidence')
 REPLAY_DIR = os.path.join(EVIDENCE_DIR, 'replays')
 KNOWN_FILE = os.path.join(VERIF, 'known_findings.json')
 
